@@ -76,6 +76,24 @@ func (d HData) Process() (string, error) {
 
 type HNode = nodes.Struct[string, HData]
 
+// JoinData adapts a slice-valued parameter ([]string{"p3", "5"}) to the string
+// ports of the harness processors: its output is the parameter's term "p3:5".
+// It is a real node of the graph the model does not know about (the model sees
+// the parameter): whatever staleness it shows is the parameter's.
+type JoinData struct {
+	In nodes.NodeOutput[[]string]
+}
+
+func (d JoinData) Process() (string, error) {
+	v := d.In.Value()
+	if len(v) < 2 {
+		return strings.Join(v, ":"), nil
+	}
+	return v[0] + ":" + v[1], nil
+}
+
+type JoinNode = nodes.Struct[string, JoinData]
+
 type WireRec struct {
 	N   int   `json:"n"`
 	A   int   `json:"a"`
@@ -99,6 +117,7 @@ type NGHistory struct {
 	NN    int      `json:"nn"`
 	Steps []NGStep `json:"steps"`
 	Tag   string   `json:"tag,omitempty"`
+	Kinds []int    `json:"kinds,omitempty"` // fixed parameter kinds (replays); default: rotate per repetition
 }
 
 type ngObs struct {
@@ -117,29 +136,65 @@ type ngLine struct {
 	S    int       `json:"s"`
 	KK   int       `json:"kk,omitempty"`
 	Val  string    `json:"val"`
+	Err  bool      `json:"err"`
 	Obs  ngObs     `json:"obs"`
 	H    int       `json:"h"`
 	I    int       `json:"i"`
 }
 
+// Parameter kinds (kind of parameter p = kinds[(p-1) % len(kinds)]):
+//
+//	1 parameter.Value[string]   updated by a JSON message
+//	2 nodes.ValueNode[string]   updated by Set
+//	3 parameter.Value[[]string] updated by a JSON message (decoded element by element); setbad sends a
+//	                            message whose first elements decode and whose last one does not
+//	4 nodes.ValueNode[[]string] updated by Set: alternately with a fresh slice and by editing the slice
+//	                            the node holds in place and handing it to Set again
+//
+// kinds 3 and 4 reach the string ports through a JoinNode.
 type ngGraph struct {
 	np, nn int
-	pA     map[int]*parameter.Value[string] // odd params
-	pB     map[int]*nodes.ValueNode[string] // even params
+	kinds  []int
+	pA     map[int]*parameter.Value[string]
+	pB     map[int]*nodes.ValueNode[string]
+	pC     map[int]*parameter.Value[[]string]
+	pD     map[int]*nodes.ValueNode[[]string]
+	held   map[int][]string // the slice handed to pD[p] last
+	sets   map[int]int
+	join   map[int]*JoinNode
 	ns     map[int]*HNode
 	ctr    *Counters
 }
 
+func (g *ngGraph) kind(p int) int { return g.kinds[(p-1)%len(g.kinds)] }
+
+func sliceTerm(p, v int) []string { return []string{"p" + strconv.Itoa(p), strconv.Itoa(v)} }
+
 func paramTerm(p, v int) string { return "p" + strconv.Itoa(p) + ":" + strconv.Itoa(v) }
 
-func newNGGraph(np, nn int) *ngGraph {
-	g := &ngGraph{np: np, nn: nn, pA: map[int]*parameter.Value[string]{}, pB: map[int]*nodes.ValueNode[string]{},
+func newNGGraph(np, nn int, kinds []int) *ngGraph {
+	if len(kinds) == 0 {
+		kinds = []int{1, 2}
+	}
+	g := &ngGraph{np: np, nn: nn, kinds: kinds, pA: map[int]*parameter.Value[string]{}, pB: map[int]*nodes.ValueNode[string]{},
+		pC: map[int]*parameter.Value[[]string]{}, pD: map[int]*nodes.ValueNode[[]string]{}, held: map[int][]string{},
+		sets: map[int]int{}, join: map[int]*JoinNode{},
 		ns: map[int]*HNode{}, ctr: &Counters{Execs: map[int]int{}}}
 	for p := 1; p <= np; p++ {
-		if p%2 == 1 {
+		switch g.kind(p) {
+		case 1:
 			g.pA[p] = &parameter.Value[string]{Name: "p" + strconv.Itoa(p), DefaultValue: paramTerm(p, 1)}
-		} else {
+		case 2:
 			g.pB[p] = nodes.Value(paramTerm(p, 1))
+		case 3:
+			g.pC[p] = &parameter.Value[[]string]{Name: "p" + strconv.Itoa(p), DefaultValue: sliceTerm(p, 1)}
+			g.join[p] = &JoinNode{Data: JoinData{In: g.pC[p]}}
+		case 4:
+			g.held[p] = sliceTerm(p, 1)
+			g.pD[p] = nodes.Value(g.held[p])
+			g.join[p] = &JoinNode{Data: JoinData{In: g.pD[p]}}
+		default:
+			panic("unknown parameter kind")
 		}
 	}
 	for n := np + 1; n <= np+nn; n++ {
@@ -152,24 +207,55 @@ func (g *ngGraph) out(s int) nodes.NodeOutputReference {
 	switch {
 	case s == 0:
 		return nil
-	case s <= g.np && s%2 == 1:
+	case s <= g.np && g.kind(s) == 1:
 		return g.pA[s].Out()
-	case s <= g.np:
+	case s <= g.np && g.kind(s) == 2:
 		return g.pB[s].Out()
+	case s <= g.np:
+		return g.join[s].Out()
 	default:
 		return g.ns[s].Out()
 	}
 }
 
 func (g *ngGraph) setParam(p, v int) {
-	if p%2 == 1 {
+	switch g.kind(p) {
+	case 1:
 		msg, _ := json.Marshal(paramTerm(p, v))
 		if _, err := g.pA[p].ApplyMessage(msg); err != nil {
 			panic(err)
 		}
-	} else {
+	case 2:
 		g.pB[p].Set(paramTerm(p, v))
+	case 3:
+		msg, _ := json.Marshal(sliceTerm(p, v))
+		if _, err := g.pC[p].ApplyMessage(msg); err != nil {
+			panic(err)
+		}
+	case 4:
+		g.sets[p]++
+		if g.sets[p]%2 == 1 {
+			// the caller edits the slice it handed over and says so with Set
+			g.held[p][1] = strconv.Itoa(v)
+		} else {
+			g.held[p] = sliceTerm(p, v)
+		}
+		g.pD[p].Set(g.held[p])
 	}
+}
+
+// setBad sends parameter p a message that must be rejected; it reports whether it was. For the slice
+// kind the first two elements are decodable and differ from the value held, the third is not a string.
+func (g *ngGraph) setBad(p int) bool {
+	switch g.kind(p) {
+	case 1:
+		_, err := g.pA[p].ApplyMessage([]byte(`{"not":"a string"}`))
+		return err != nil
+	case 3:
+		_, err := g.pC[p].ApplyMessage([]byte(`["p` + strconv.Itoa(p) + `x","99",7]`))
+		return err != nil
+	}
+	return true // kinds without a message path: nothing is sent
 }
 
 func (g *ngGraph) wire(n int, port string, s int) {
@@ -183,22 +269,27 @@ func (g *ngGraph) obs() ngObs {
 		o.Execs = append(o.Execs, g.ctr.Execs[n])
 	}
 	for p := 1; p <= g.np; p++ {
-		if p%2 == 1 {
+		switch g.kind(p) {
+		case 1:
 			o.PVer = append(o.PVer, g.pA[p].Version())
-		} else {
+		case 2:
 			o.PVer = append(o.PVer, g.pB[p].Version())
+		case 3:
+			o.PVer = append(o.PVer, g.pC[p].Version())
+		default:
+			o.PVer = append(o.PVer, g.pD[p].Version())
 		}
 	}
 	return o
 }
 
-func runNG(enc *json.Encoder, h int, hist NGHistory) {
+func runNG(enc *json.Encoder, h int, hist NGHistory, kinds []int) {
 	var g *ngGraph
 	for i, st := range hist.Steps {
 		ln := ngLine{H: h, I: i, S: st.S}
 		switch st.Op {
 		case "init":
-			g = newNGGraph(hist.NP, hist.NN)
+			g = newNGGraph(hist.NP, hist.NN, kinds)
 			for _, w := range st.Wire {
 				if w.A != 0 {
 					g.wire(w.N, "A", w.A)
@@ -215,6 +306,9 @@ func runNG(enc *json.Encoder, h int, hist NGHistory) {
 		case "set":
 			g.setParam(st.P, st.V)
 			ln.K, ln.P, ln.V = "set", st.P, st.V
+		case "setbad":
+			ln.K, ln.P = "setbad", st.P
+			ln.Err = g.setBad(st.P)
 		case "wire":
 			g.wire(st.N, st.Port, st.S)
 			ln.K, ln.N, ln.Port = "wire", st.N, st.Port
@@ -264,7 +358,12 @@ func RunNodeGraph(in, out string, reps int) error {
 			return fmt.Errorf("history %d: %w", h, err)
 		}
 		for r := 0; r < reps; r++ {
-			runNG(enc, h, hist)
+			// the kinds of the parameters are invisible to the model: the repetitions of a history rotate them
+			kinds := [][]int{{1, 2, 3, 4}, {3, 4, 1, 2}, {4, 3, 2, 1}, {2, 1, 4, 3}}[r%4]
+			if len(hist.Kinds) > 0 {
+				kinds = hist.Kinds
+			}
+			runNG(enc, h, hist, kinds)
 		}
 		h++
 	}
@@ -308,6 +407,10 @@ func GenNodeGraph(out string, seed int64, n, steps, np, nn int) error {
 			nid := np + 1 + r.Intn(nn)
 			switch r.Intn(10) {
 			case 0, 1, 2:
+				if r.Intn(6) == 0 {
+					hist.Steps = append(hist.Steps, NGStep{Op: "setbad", P: 1 + r.Intn(np)})
+					break
+				}
 				hist.Steps = append(hist.Steps, NGStep{Op: "set", P: 1 + r.Intn(np), V: []int{1, 2, 3, 13, 13}[r.Intn(5)]})
 			case 3:
 				s := 0
